@@ -31,7 +31,28 @@ def main(argv=None):
              'of abort, commit and failed commit after savepoints and rollbacks); the pickling scenarios also '
              'reach new objects through persistent weak references pickled before / without an ordinary reference; non-trivial = a commit or savepoint found a new object '
              'by reachability and some commit failed or a joined transaction was aborted; distinct by hash of the case',
-        assumptions=['the explicit-transaction-manager family is judged by the oracle alone: a refused registration has '
+        assumptions=['generalisation pass: storage kinds mapping/file/demo plus hex-wrapped (mapping, file), '
+                     'MVCCMappingStorage, DemoStorage(changes=FileStorage) and databases built by ZODB.config; DB '
+                     'options pool_size=1, large_record_size, objects with states > 64 KiB; explicit transaction '
+                     'managers in the main programs (the harness begins a transaction right after every boundary; '
+                     'after a failed commit both observations are taken after the new begin()); ops touch '
+                     '(_p_changed=True), get (conn.get(oid) is obj), xadd (another connection\'s add must be refused), '
+                     'gc (cacheMinimize), spo (optimistic savepoint), spf (savepoint failing on an unpicklable object): '
+                     'all against the Lean model (driver level for gc/get/xadd/touch/spf)',
+                     'cases with a tiny cache_size (the cache GC of savepoint()/close() ghostifies at points the model '
+                     'does not predict) are judged by the oracle alone (counter oracle-only:tiny-cache)',
+                     'family misc (export/import inside transactions with savepoints, truncated export files, thousands '
+                     'of new objects in one commit, __getstate__ creating objects, managers without savepoint support) '
+                     'is judged by its own oracle alone; fixed finding C11:import:failed-import-poisons-next-commit '
+                     'is reported under exactly that signature',
+                     'the multi-database family also takes savepoints spanning both databases and exercises a refused '
+                     'registration (TransactionFailedError) after a failed commit of the shared manager',
+                     'every case runs under a 120 s time limit: a blocked step is reported as <pid>:timeout with its input',
+                     'judged irrelevant to C11/C12: Connection.oldstate (read-only history access: C04/C15), direct '
+                     'setstate/register calls (what every read/modification does), _p_changed = False on a modified '
+                     'object (the application lying about its state), clocks / oid boundary values / pack / undo '
+                     '(storage-level properties), readers between two steps (C01/C05 schedule checks)',
+                     'the explicit-transaction-manager family is judged by the oracle alone: a refused registration has '
                      'no effect, the connection takes part in the next transaction as usual',
                      'a persistent weak reference is treated like an ordinary reference (ZODB adds and stores its '
                      'target); weak references occur only in structured cases without failing commits (a WeakRef '
